@@ -5,6 +5,7 @@ import (
 	"fmt"
 	"math"
 	"sort"
+	"strings"
 	"sync"
 
 	tls "github.com/refraction-networking/utls"
@@ -190,20 +191,92 @@ func runC30(c *vh.Ctx) {
 		p.Read(next[:])
 		c.Case(call[:5], fmt.Sprintf("CCall %s (%s) (%s) %s", vh.Bytes(s[:slen-8*skip-8]), call, res, vh.Bytes(next[:])), key, nontriv, sample)
 	}
-	// salted seeds: deterministic in (seed, salt), different across salts, different from unsalted
-	for i := 0; i < 30; i++ {
-		seed := newSeed(c)
-		a1, _ := tls.VerifNewSaltedPRNG(seed, "ALPS")
-		a2, _ := tls.VerifNewSaltedPRNG(seed, "ALPS")
-		b, _ := tls.VerifNewSaltedPRNG(seed, fmt.Sprint("salt", i))
-		u, _ := tls.VerifNewPRNG(seed)
-		x1, x2, y, z := a1.Uint64(), a2.Uint64(), b.Uint64(), u.Uint64()
-		c.Count("salted_checks")
-		if x1 != x2 {
-			c.Fail("salted-determinism", "salted PRNG not deterministic in (seed,salt)", fmt.Sprintf("%x", seed[:]), []uint64{x1, x2}, "equal")
+	// salted seeds: deterministic in (seed, salt), different across salts, different from unsalted.
+	// Salts of many lengths (0 .. 1000 bytes, arbitrary bytes); per seed a family of salts that are pairwise different but
+	// close: one byte changed at the end / at the front / in the middle, one byte more, one byte less, a common prefix of
+	// 31, 32, 33, 64 ... bytes followed by different tails.
+	saltLens := []int{0, 1, 2, 3, 4, 5, 7, 8, 9, 15, 16, 17, 20, 31, 32, 33, 34, 40, 47, 48, 49, 63, 64, 65, 72, 100, 127, 128, 129, 135, 136, 137, 200, 255, 256, 257, 300, 1000}
+	first32 := func(p *tls.VerifPRNG) string {
+		b := make([]byte, 32)
+		p.Read(b)
+		return string(b)
+	}
+	commonPrefix := func(a, b string) int {
+		n := 0
+		for n < len(a) && n < len(b) && a[n] == b[n] {
+			n++
 		}
-		if x1 == y || x1 == z {
-			c.Fail("salted-distinct", "salted streams coincide across salts", fmt.Sprintf("%x", seed[:]), []uint64{x1, y, z}, "distinct")
+		return n
+	}
+	rounds := 30
+	if c.Tier == "thorough" {
+		rounds = 200
+	}
+	for i := 0; i < rounds; i++ {
+		seed := newSeed(c)
+		L := saltLens[(i+int(c.Seed))%len(saltLens)]
+		if i%4 == 3 {
+			L = c.Rng.Intn(300)
+		}
+		raw := make([]byte, L)
+		c.Rng.Read(raw)
+		base := string(raw)
+		flip := func(s string, at int) string {
+			b := []byte(s)
+			b[at] ^= byte(1 + c.Rng.Intn(255))
+			return string(b)
+		}
+		salts := []string{base, "ALPS", "", base + string([]byte{byte(1 + c.Rng.Intn(255))}), base + "\x00", base + "\x00\x00", base + base}
+		if L > 0 {
+			salts = append(salts, flip(base, L-1), flip(base, 0), flip(base, c.Rng.Intn(L)), base[:L-1], base[:L/2])
+		}
+		for _, pl := range []int{31, 32, 33, 64, L} { // two salts with a common prefix of pl bytes and different tails
+			if pl <= L {
+				t1, t2 := make([]byte, 1+c.Rng.Intn(40)), make([]byte, 1+c.Rng.Intn(40))
+				c.Rng.Read(t1)
+				c.Rng.Read(t2)
+				t2[0] = t1[0] ^ 0x55
+				salts = append(salts, base[:pl]+string(t1), base[:pl]+string(t2))
+			}
+		}
+		streams := make([]string, len(salts))
+		for k, sl := range salts {
+			a1, _ := tls.VerifNewSaltedPRNG(seed, sl)
+			a2, _ := tls.VerifNewSaltedPRNG(seed, sl)
+			streams[k] = first32(a1)
+			c.Count("salted_checks")
+			if again := first32(a2); again != streams[k] {
+				c.Fail(fmt.Sprintf("salted-determinism:len%d", len(sl)), "salted PRNG not deterministic in (seed,salt)", map[string]any{"seed": vh.Hex(seed[:]), "salt": vh.Hex([]byte(sl))}, []string{vh.Hex([]byte(streams[k])), vh.Hex([]byte(again))}, "equal")
+			}
+		}
+		u, _ := tls.VerifNewPRNG(seed)
+		unsalted := first32(u)
+		for k := range salts {
+			if streams[k] == unsalted {
+				c.Fail(fmt.Sprintf("salted-distinct:len%d/unsalted", len(salts[k])), "a salted stream coincides with the unsalted one", map[string]any{"seed": vh.Hex(seed[:]), "salt": vh.Hex([]byte(salts[k]))}, vh.Hex([]byte(unsalted)), "distinct")
+			}
+			for m := k + 1; m < len(salts); m++ {
+				same := salts[k] == salts[m]
+				cp := commonPrefix(salts[k], salts[m])
+				key := fmt.Sprintf("salted-distinct:len%d/len%d/prefix%d", len(salts[k]), len(salts[m]), cp)
+				if strings.TrimRight(salts[k], "\x00") == strings.TrimRight(salts[m], "\x00") {
+					// the two salts differ only in the number of zero bytes at their end
+					key = fmt.Sprintf("salted-distinct/trailing-nul/len%d/len%d", len(salts[k]), len(salts[m]))
+				}
+				if !same && streams[k] == streams[m] {
+					c.Fail(key, "two different salts give the same stream for the same seed",
+						map[string]any{"seed": vh.Hex(seed[:]), "salt1": vh.Hex([]byte(salts[k])), "salt2": vh.Hex([]byte(salts[m]))},
+						vh.Hex([]byte(streams[k])), "different streams")
+				}
+				if same && streams[k] != streams[m] {
+					c.Fail("salted-determinism", "equal salts give different streams", vh.Hex([]byte(salts[k])), nil, "equal")
+				}
+				// a sample of the pairs (short salts, first 8 stream bytes) is also judged by the Coq-side oracle
+				if len(salts[k]) <= 40 && len(salts[m]) <= 40 && (k+m+i)%7 == 0 {
+					c.OracleCase("salt", fmt.Sprintf("CSalt %s %s %s %s", vh.Bytes([]byte(salts[k])), vh.Bytes([]byte(salts[m])), vh.Bytes([]byte(streams[k][:8])), vh.Bytes([]byte(streams[m][:8]))),
+						key, "salted streams: equal salts <-> equal streams", map[string]any{"seed": vh.Hex(seed[:]), "salt1": vh.Hex([]byte(salts[k])), "salt2": vh.Hex([]byte(salts[m]))}, !same)
+				}
+			}
 		}
 	}
 }
